@@ -104,6 +104,8 @@ pub fn worker_main(prop: &'static dyn Prop, worker_id: usize, jail: Option<PathB
         let _ = std::fs::create_dir_all(&dir);
         jail_root = dir.clone();
         if prop.info().needs_jail && !prop.info().needs_duck {
+            // marker by which code inside the jail can tell that "/" is the jail and not the real root
+            let _ = std::fs::write(dir.join(".dsim-jail"), b"");
             if std::os::unix::fs::chroot(&dir).is_ok() && std::env::set_current_dir("/").is_ok() {
                 chrooted = true;
                 jail_root = PathBuf::from("/");
